@@ -340,6 +340,33 @@ Section Calls.
              apply IH; auto. apply vsim_set_stk; auto.
   Qed.
 
+  (** do: related condition and body give related loops; more fuel on the right changes nothing *)
+  Lemma REL_do_loop h h' (cond cond' body body' : rt -> res) cc :
+    (forall x y, vsim x y -> hid x = h -> hid y = h' -> REL h h' (cond x) (cond' y)) ->
+    (forall x y, vsim x y -> hid x = h -> hid y = h' -> REL h h' (body x) (body' y)) ->
+    forall k1 k2 s s', k1 <= k2 -> vsim s s' -> hid s = h -> hid s' = h' ->
+    REL h h' (do_loop cond body cc k1 s) (do_loop cond' body' cc k2 s').
+  Proof.
+    intros Hc Hb. induction k1 as [|k1 IH]; intros k2 s s' Hk V Ha Hb'; cbn [do_loop]; [exact I|].
+    destruct k2 as [|k2]; [lia|]. cbn [do_loop].
+    pose proof V as (E1 & E2 & E3 & E4). unfold need. rewrite <- E1.
+    destruct (negb (cc <=? length (stk s))); [apply REL_err; auto|].
+    assert (V1 : vsim (set_stk s (firstn cc (stk s) ++ stk s)) (set_stk s' (firstn cc (stk s) ++ stk s)))
+      by (apply vsim_set_stk; auto).
+    pose proof (Hc _ _ V1 Ha Hb') as R.
+    destruct (cond (set_stk s (firstn cc (stk s) ++ stk s))) as [a|c a| |]; cbn [REL] in R; try exact I.
+    - destruct R as (Ha2 & b & -> & Vab & Hb2). pose proof Vab as (G1 & G2 & G3 & G4). rewrite <- G1.
+      destruct (stk a) as [|[z|o] rest]; [apply REL_err; auto| |exact I].
+      destruct (Z.eqb z 0); [apply REL_ok; auto; apply vsim_set_stk; auto|].
+      destruct (Z.eqb z 1); [|apply REL_err; auto; apply vsim_set_stk; auto].
+      assert (V2 : vsim (set_stk a rest) (set_stk b rest)) by (apply vsim_set_stk; auto).
+      pose proof (Hb _ _ V2 Ha2 Hb2) as R2.
+      destruct (body (set_stk a rest)) as [a3|c a3| |]; cbn [REL] in R2; try exact I.
+      + destruct R2 as (Ha3 & b3 & -> & V3 & Hb3). apply IH; auto. lia.
+      + destruct R2 as (Ha3 & b3 & -> & V3 & Hb3). apply REL_err; auto.
+    - destruct R as (Ha2 & b & -> & Vab & Hb2). apply REL_err; auto.
+  Qed.
+
   Lemma REL_without_fill (body body' : rt -> res) a b :
     vsim a b ->
     (forall a1 b1, vsim a1 b1 -> novis a1 -> stk a1 = stk a -> hid a1 = (fills a, length (fills a) :: fbs a, depth a) ->
@@ -479,6 +506,15 @@ Section Calls.
       + intros Hv a Ha. eapply novis_hid; eauto.
       + apply REL_ok; auto.
     - (* Mod *)
+      destruct (match m with MDo => true | _ => false end) eqn:Emd.
+      { destruct m; try discriminate Emd.
+        destruct args as [|[sb body] [|[sc cond] [|? ?]]]; cbn [Exec.exec map fst snd sets_fill]; try exact I.
+        destruct (_ || _); [exact I|].
+        assert (Hsub : forall n, forall a b, vsim a b -> hid a = hid s -> hid b = hid s' ->
+                  REL (hid s) (hid s') (exec asm1 fuel1 n a) (exec asm2 fuel2 (inlc asm1 k (vis || false) n) b)).
+        { intros n a b Vab Ha Hb. apply (IH_use _ _ IH); auto.
+          intros Hv. rewrite ?orb_false_r in Hv. eapply novis_hid; [exact Ha | auto]. }
+        apply REL_do_loop; auto; try lia. }
       destruct (match m with MTry => true | _ => false end) eqn:Em.
       { destruct m; try discriminate Em.
         destruct args as [|[sg1 f1] [|[sg2 f2] hs]]; cbn [Exec.exec map fst snd sets_fill]; try exact I.
@@ -491,7 +527,7 @@ Section Calls.
                   ((sg2, f2) :: hs) sg1 f1 false s s' V eq_refl eq_refl).
         intros n a b Vab Ha Hb. apply (IH_use _ _ IH); auto.
         intros Hv. rewrite ?orb_false_r in Hv. eapply novis_hid; [exact Ha | auto]. }
-      destruct m; try discriminate Em; cbn [Exec.exec];
+      destruct m; try discriminate Em; try discriminate Emd; cbn [Exec.exec];
         destruct args as [|[sg1 f1] [|[sg2 f2] [|[sg3 f3] rest]]]; cbn [map fst snd sets_fill]; try exact I.
       all: try (match goal with |- REL _ _ (match iter_ao ?mk ?sg with _ => _ end) _ =>
                   destruct (iter_ao mk sg) as [[na no]|]; [|exact I] end;
